@@ -15,7 +15,7 @@ HEAD=$(git -C /repo rev-parse HEAD)
 [ -d $W/repo ] || git -C /repo worktree add -q --detach $W/repo $HEAD
 git -C $W/repo checkout -q --detach $HEAD && git -C $W/repo checkout -q -- . && git -C $W/repo clean -fdq
 git -C $W/repo apply "$P" || { echo "patch does not apply"; exit 2; }
-rsync -a --delete --exclude target --exclude .git --exclude replays --exclude 'fuzz/target' --exclude 'fuzz/corpus-work' --exclude 'fuzz/artifacts' --exclude evidence /verif/ $W/verif/
+rsync -a --delete --exclude target --exclude .git --exclude replays --exclude 'fuzz/target' --exclude 'fuzz/corpus-work' --exclude 'fuzz/artifacts' --exclude evidence ${VERIF_SRC:-/verif}/ $W/verif/
 mkdir -p $W/verif/evidence
 sed -i "s|/repo/src/main.rs|$W/repo/src/main.rs|" $W/verif/vpnlib/Cargo.toml
 cd $W/verif
